@@ -115,6 +115,31 @@ def class_worker(part, codes):
             ok_i = False
         if not ok_i:
             part.fail("class-int-matrix:%d" % code, "operation %s built from an integer-typed rotation matrix differs from the float-built one (code/str/apply/seitz)" % want, case)
+        # arithmetic: adding / subtracting a vector (operator and augmented-assignment spelling, the latter on an object whose
+        # code, hash and string were already read) gives the operation with the shifted translation, in ALL its forms
+        for tw in ((6, 0, 0), (4, 8, 2), (12, 0, -24), (3, 3, 9)):
+            tvec = np.array(tw, dtype=float) / 12.0
+            ref_op = (op[0], tuple((op[1][i] + tw[i]) % 12 for i in range(3)))
+            ref_code, ref_str = symm.encode(ref_op), symm.canonical_string(ref_op)
+            o1 = a + tvec
+            o2 = SymmetryOperation.from_integer_code(code)
+            _ = (int(o2.integer_code), hash(o2), str(o2), o2 == a)
+            o2 += tvec
+            o3 = SymmetryOperation.from_integer_code(ref_code)
+            _ = (int(o3.integer_code), hash(o3), str(o3))
+            o3 -= tvec
+            o4 = (a + tvec) - tvec
+            try:
+                okk = all(int(o.integer_code) == ref_code and str(o) == ref_str and o == o1 and hash(o) == hash(o1)
+                          and np.abs(np.mod(o.apply(pts3) - (pts3 @ np.array(op[0], dtype=float).reshape(3, 3).T + np.array(ref_op[1]) / 12.0) + 0.5, 1.0) - 0.5).max() < 1e-12
+                          for o in (o1, o2))
+                okk = okk and all(int(o.integer_code) == code and str(o) == want and o == a and hash(o) == hash(a) for o in (o3, o4))
+            except Exception:
+                okk = False
+            if not okk:
+                part.fail("class-arithmetic:%d" % code, "adding / subtracting the vector %s/12 to the operation %s (operator and augmented assignment) does not give one operation with consistent code, "
+                          "string, equality, hash and action" % (tw, want), case)
+                break
         # the model reader agrees with the library on the library's own string (binds the grammar)
         if symm.parse_string(sb) != op:
             part.fail("model-parse:%d" % code, "reference parser disagrees on %r" % sb, case)
